@@ -52,6 +52,30 @@ theorem refuses (d : VDef) (hw : WellFormed d) :
     | false => rfl
     | true => have := h3.mp ha; rw [h] at this; cases this
 
+/-- **Two clauses hold with no well-formedness assumption at all** (so also for noise maps in which one name occurs twice, once as
+a `str` key and once as a `Symbol` key): a negative process-noise value — however small — is refused, and a sensor whose noise
+entries do not name exactly its readings is refused. -/
+theorem negative_noise_refused (d : VDef) (k : NoiseKey) (v : Rat) (hm : (k, v) ∈ d.noise) (hv : v < 0) :
+    acceptsEkf d = false := by
+  have : noiseNonneg d = false := by
+    unfold noiseNonneg
+    rw [List.all_eq_false]
+    exact ⟨(k, v), hm, by simpa using (Rat.not_le.mpr hv)⟩
+  unfold acceptsEkf
+  simp [this]
+
+theorem sensor_noise_names_refused (d : VDef) (s : SensorSkel) (hs : s ∈ d.sensors)
+    (h : sensorNoiseSame d s = false) : acceptsEkf d = false := by
+  have h1 : sensorNoiseCount d s = false := by
+    unfold sensorNoiseCount; unfold sensorNoiseSame at h
+    cases hl : d.sensorNoise.lookup s.key with
+    | none => rfl
+    | some rs => rw [hl] at h; simp only at h ⊢; simp [h]
+  have : d.sensors.all (sensorNoiseCount d) = false := by
+    rw [List.all_eq_false]; exact ⟨s, hs, by simp [h1]⟩
+  unfold acceptsEkf
+  simp [this]
+
 /-! non-vacuity: a valid two-sensor definition, and single faults of three kinds -/
 def ex : VDef where
   state := ["z", "v"]; control := ["u"]; calibration := ["k"]
@@ -62,6 +86,9 @@ def ex : VDef where
 example : acceptsUi ex = true ∧ acceptsCompile ex = true ∧ acceptsEkf ex = true ∧ validEkf ex = true := by
   decide +kernel
 example : acceptsEkf { ex with noise := [(.sym "u", -1/2)] } = false := by decide +kernel
+example : acceptsEkf { ex with noise := [(.sym "u", -1/1000000000000)] } = false := by decide +kernel
+-- "r2" twice (a str key and a Symbol key of that name), "r1" missing: the count is right, the names are not
+example : acceptsEkf { ex with sensorNoise := [("gps", ["g"]), ("alt", ["r2", "r2"])] } = false := by decide +kernel
 example : acceptsEkf { ex with sensorNoise := [("gps", ["g"]), ("alt", ["r2", "rX"])] } = false := by decide +kernel
 example : acceptsEkf { ex with sensors := [⟨"alt", [("r1", ["z"]), ("r2", ["u"])]⟩, ⟨"gps", [("g", ["z"])]⟩] } = false := by
   decide +kernel
